@@ -3,7 +3,10 @@
      brun <off> <stride> <n> <op> ...     op = R<n> | N<k> | S<pos>:<whence> | A
         -> b<first byte>:<end byte> | k<index> | e<error>   per op: the reader of a file whose header announces <n> records from byte
            <off> on, addressing the stream with <stride> bytes per record
-     crun <n> <op> ...  /  srun <n> <op> ...   record-level runs of Model/Cursor.v (s<a>:<b> | k<i> | e<error>) *)
+     crun <n> <op> ...  /  srun <n> <op> ...   record-level runs of Model/Cursor.v (s<a>:<b> | k<i> | e<error>)
+     bfrun <off> <stride> <n> <fop> ...   fop = <op> | !<op> (the source raises on its first call during <op>) | M (a caller operation on
+        an object the reader handed out) -> as brun, `-` for M                      (Model/CursorFault.v)
+     frun <n> <fop> ... / sfrun <n> <fop> ...  record-level runs with faults *)
 open Model
 
 let rec pos_of_int n = if n = 1 then XH else if n land 1 = 0 then XO (pos_of_int (n lsr 1)) else XI (pos_of_int (n lsr 1))
@@ -60,6 +63,30 @@ let ops_of a from =
               | [p; w] -> CSeek (z_of_string p, z_of_string w) | _ -> failwith "seek")
     | _ -> CReadAll) (Array.to_list (Array.sub a from (Array.length a - from)))
 
+let op_of_tok t =
+  let body = String.sub t 1 (String.length t - 1) in
+  match t.[0] with
+  | 'R' -> CRead (z_of_string body)
+  | 'N' -> CNext (z_of_string body)
+  | 'S' -> (match String.split_on_char ':' body with
+            | [p; w] -> CSeek (z_of_string p, z_of_string w) | _ -> failwith "seek")
+  | _ -> CReadAll
+
+let fops_of a from =
+  List.map (fun t ->
+    if t.[0] = 'M' then FCaller
+    else if t.[0] = '!' then FFail (op_of_tok (String.sub t 1 (String.length t - 1)))
+    else FOk (op_of_tok t)) (Array.to_list (Array.sub a from (Array.length a - from)))
+
+(* one output token per fop: the model emits none for a caller operation, the driver prints `-` there *)
+let align fops outs show =
+  let rec go fops outs = match fops, outs with
+    | [], _ -> []
+    | FCaller :: r, _ -> "-" :: go r outs
+    | _ :: r, o :: os -> show o :: go r os
+    | _ :: r, [] -> "driver-error-missing-output" :: go r [] in
+  String.concat " " (go fops outs)
+
 let dispatch cmd a =
   let zi i = z_of_string a.(i) in
   match cmd with
@@ -69,6 +96,21 @@ let dispatch cmd a =
       | BBytes (x, y) -> "b" ^ string_of_z x ^ ":" ^ string_of_z y
       | BSeek i -> "k" ^ string_of_z i
       | BErr e -> "e" ^ err_name e) outs)
+  | "bfrun" ->
+    let fops = fops_of a 3 in
+    let outs = snd (bfrun (zi 0) (zi 1) { b_n = zi 2; b_read = Z0; b_pos = zi 0 } fops) in
+    align fops outs (function
+      | BBytes (x, y) -> "b" ^ string_of_z x ^ ":" ^ string_of_z y
+      | BSeek i -> "k" ^ string_of_z i
+      | BErr e -> "e" ^ err_name e)
+  | "frun" | "sfrun" ->
+    let fops = fops_of a 1 in
+    let outs = if cmd = "frun" then snd (frun { c_n = zi 0; c_read = Z0; c_src = Z0 } fops)
+               else snd (sfrun { sp_n = zi 0; sp_c = Z0 } fops) in
+    align fops outs (function
+      | OSlice (x, y) -> "s" ^ string_of_z x ^ ":" ^ string_of_z y
+      | OSeek i -> "k" ^ string_of_z i
+      | OErr e -> "e" ^ err_name e)
   | "crun" | "srun" ->
     let ops = ops_of a 1 in
     let outs = if cmd = "crun" then snd (crun { c_n = zi 0; c_read = Z0; c_src = Z0 } ops)
